@@ -125,74 +125,100 @@ let decode_payload (s : string) : int list =
 
 let to_bytes (l : int list) : bytes = List.map n_of_int l
 
-(* case  : `<kind> ... | c<id> w=<len>:<gap>,... r=<n>,... ; c<id> ...`  (see c02_sock.rs); only the writes matter here
-   impl  : `<status> | c<id> reads=<n>:<payload>/<n>:<payload>/... ; ...`  for streams
-           `<status> | c<id> dgrams=<payload>/<payload>/... ; ...`        for datagrams *)
+(* case : `<tcp|udp> f=.. mtu=.. arp=.. plan=.. acc=.. srv=<W> sr=<R> | c<id> w=<W> r=<R> d=<ms> ; ...`
+          W = `<len>:<gap>,...` | `-`   (only the write sizes matter to the prediction)
+   impl : `<status> | c<id> sid=<k|-> x=<copies> dx=<copies> up=<reads> down=<reads> ; ...`
+          reads: tcp `<n>:<payload>/...`, udp `<payload>/...`, `-` = nothing  (see c02_sock.rs)
+   prediction: stream sockets - what the handler of client c read (up) is the concatenation of c's writes and what
+   c read (down) is the concatenation of the server's writes with the handler's pattern; every recv(n) within n.
+   datagram sockets - every datagram read is one of the datagrams written, each at most `copies` times. *)
+let sizes_of (w : string) : int list =
+  if w = "-" then []
+  else List.map (fun x -> int_of_string (fst (split2 x ':'))) (String.split_on_char ',' w)
+
+let stream_writes (sender : int) (sizes : int list) : bytes list =
+  let _, ws =
+    List.fold_left
+      (fun (off, acc) len -> (off + len, to_bytes (List.init len (fun j -> pat sender (off + j))) :: acc))
+      (0, []) sizes
+  in
+  List.rev ws
+
+let dgram_writes (sender : int) (sizes : int list) : bytes list =
+  List.mapi (fun k len -> to_bytes (List.init len (fun j -> pat sender (k * 65536 + j)))) sizes
+
+let parse_stream_reads (rs : string) : (nat * bytes) list =
+  if rs = "-" then []
+  else
+    List.map
+      (fun r ->
+        let n, p = split2 r ':' in
+        (nat_of_int (int_of_string n), to_bytes (decode_payload p)))
+      (String.split_on_char '/' rs)
+
+let parse_dgram_reads (rs : string) : bytes list =
+  if rs = "-" then [] else List.map (fun p -> to_bytes (decode_payload p)) (String.split_on_char '/' rs)
+
+let field (toks : string list) (name : string) : string =
+  let pre = name ^ "=" in
+  let l = String.length pre in
+  match List.find_opt (fun t -> String.length t >= l && String.sub t 0 l = pre) toks with
+  | Some t -> String.sub t l (String.length t - l)
+  | None -> raise Not_found
+
+let starts_with (s : string) (p : string) : bool =
+  String.length s >= String.length p && String.sub s 0 (String.length p) = p
+
 let validate (fixed : bool) (line : string) : string =
   match Str.split (Str.regexp_string " ||| ") line with
   | [ case; impl ] -> (
       try
-        let ctoks = Array.of_list (Conv.tokens case) in
-        let kind = ctoks.(0) in
-        let _, cl = split2 case '|' in
-        let _, il = split2 impl '|' in
-        let status = String.trim (fst (split2 impl '|')) in
-        if String.length status >= 5 && String.sub status 0 5 = "CRASH" then "REJECT crash"
-        else if String.length status >= 4 && String.sub status 0 4 = "HANG" then "REJECT hang"
+        let head, cl = split2 case '|' in
+        let htoks = Conv.tokens head in
+        let kind = List.hd htoks in
+        let srv = sizes_of (field htoks "srv") in
+        let st, il = split2 impl '|' in
+        let status = String.trim st in
+        if starts_with status "CRASH" then "REJECT the simulation crashed"
+        else if starts_with status "HANG" then "REJECT the simulation hung"
+        else if status <> "Exited" then "REJECT status " ^ status
         else begin
           let clients = List.map String.trim (String.split_on_char ';' cl) in
           let impls = List.map String.trim (String.split_on_char ';' il) in
-          let field (toks : string list) (name : string) : string =
-            let pre = name ^ "=" in
-            let l = String.length pre in
-            match List.find_opt (fun t -> String.length t >= l && String.sub t 0 l = pre) toks with
-            | Some t -> String.sub t l (String.length t - l)
-            | None -> raise Not_found
-          in
-          let verdicts =
-            List.map2
-              (fun c i ->
-                let ct = Conv.tokens c and it = Conv.tokens i in
-                let id = int_of_string (String.sub (List.hd ct) 1 (String.length (List.hd ct) - 1)) in
-                if List.hd it <> List.hd ct then "REJECT client order"
-                else begin
-                  let ws = List.filter (fun x -> x <> "") (String.split_on_char ',' (field ct "w")) in
-                  let sizes = List.map (fun w -> int_of_string (fst (split2 w ':'))) ws in
-                  if kind = "tcp" then begin
-                    (* write k carries the pattern bytes of stream positions off_k .. off_k+len_k-1 *)
-                    let _, writes =
-                      List.fold_left
-                        (fun (off, acc) len -> (off + len, acc @ [ to_bytes (List.init len (fun j -> pat id (off + j))) ]))
-                        (0, []) sizes
-                    in
-                    let rs = field it "reads" in
-                    let reads =
-                      if rs = "-" then []
-                      else
-                        List.map
-                          (fun r ->
-                            let n, p = split2 r ':' in
-                            (nat_of_int (int_of_string n), to_bytes (decode_payload p)))
-                          (String.split_on_char '/' rs)
-                    in
-                    if validate_stream fixed writes reads then "ACCEPT" else "REJECT stream of client " ^ string_of_int id
-                  end
+          if List.length clients <> List.length impls then "REJECT client sections"
+          else begin
+            let verdicts =
+              List.map2
+                (fun c i ->
+                  let ct = Conv.tokens c and it = Conv.tokens i in
+                  if List.hd it <> List.hd ct then "REJECT client order"
                   else begin
-                    (* datagram k of client id carries pattern positions k*65536 .. +len; `x=<copies>,...` in the impl
-                       line = how many copies of each datagram the link layer delivered at most *)
-                    let dgs = List.mapi (fun k len -> to_bytes (List.init len (fun j -> pat id (k * 65536 + j)))) sizes in
-                    let copies = List.map int_of_string (String.split_on_char ',' (field it "x")) in
-                    let sent = List.map2 (fun d c -> (d, nat_of_int c)) dgs copies in
-                    let gs = field it "dgrams" in
-                    let got =
-                      if gs = "-" then [] else List.map (fun p -> to_bytes (decode_payload p)) (String.split_on_char '/' gs)
-                    in
-                    if validate_dgram sent got then "ACCEPT" else "REJECT datagrams of client " ^ string_of_int id
-                  end
-                end)
-              clients impls
-          in
-          match List.find_opt (fun v -> v <> "ACCEPT") verdicts with Some v -> v | None -> "ACCEPT"
+                    let id = int_of_string (String.sub (List.hd ct) 1 (String.length (List.hd ct) - 1)) in
+                    let up_sizes = sizes_of (field ct "w") in
+                    let sid = field it "sid" in
+                    let down_sender = 50 + (if sid = "-" then 0 else int_of_string sid) in
+                    if kind = "tcp" then begin
+                      let up = parse_stream_reads (field it "up") and down = parse_stream_reads (field it "down") in
+                      if not (validate_stream fixed (stream_writes id up_sizes) up) then
+                        Printf.sprintf "REJECT stream client %d -> server" id
+                      else if not (validate_stream fixed (stream_writes down_sender srv) down) then
+                        Printf.sprintf "REJECT stream server -> client %d" id
+                      else "ACCEPT"
+                    end
+                    else begin
+                      let x = nat_of_int (int_of_string (field it "x")) and dx = nat_of_int (int_of_string (field it "dx")) in
+                      let up = parse_dgram_reads (field it "up") and down = parse_dgram_reads (field it "down") in
+                      if not (validate_dgram (List.map (fun d -> (d, x)) (dgram_writes id up_sizes)) up) then
+                        Printf.sprintf "REJECT datagrams client %d -> server" id
+                      else if not (validate_dgram (List.map (fun d -> (d, dx)) (dgram_writes down_sender srv)) down) then
+                        Printf.sprintf "REJECT datagrams server -> client %d" id
+                      else "ACCEPT"
+                    end
+                  end)
+                clients impls
+            in
+            match List.find_opt (fun v -> v <> "ACCEPT") verdicts with Some v -> v | None -> "ACCEPT"
+          end
         end
       with e -> "REJECT unparsable (" ^ Printexc.to_string e ^ ")")
   | _ -> "REJECT malformed line"
